@@ -40,7 +40,10 @@ class Obligation:
         self.kind = kind
 
 
-Z3_TIMEOUT_MS = int(os.environ.get("PYVC_Z3_TIMEOUT_MS", "15000"))
+# verdicts must not flip when all cores are busy: the deciding limit is z3's deterministic resource counter (rlimit);
+# the wall-clock timeout is only a generous safety net
+Z3_TIMEOUT_MS = int(os.environ.get("PYVC_Z3_TIMEOUT_MS", "90000"))
+Z3_RLIMIT = int(os.environ.get("PYVC_Z3_RLIMIT", "40000000"))
 CVC5_TIMEOUT_S = int(os.environ.get("PYVC_CVC5_TIMEOUT_S", "30"))
 
 
@@ -75,6 +78,8 @@ class Ctx:
     def __init__(self, prefix=(), assert_on=True, concrete=False):
         self.solver = z3.Solver()
         self.solver.set('timeout', Z3_TIMEOUT_MS)
+        self.solver.set('rlimit', Z3_RLIMIT)
+        self.uncertain = False    # a feasibility query came back `unknown`: this path may be infeasible
         self.prefix = list(prefix)
         self.trace = []
         self.pending = []
@@ -156,6 +161,7 @@ class Ctx:
         r = self._check(zbool(cond))
         if r == z3.unknown:
             self.unknown_feasible += 1
+            self.uncertain = True
         return r != z3.unsat
 
     def decide(self, cond):
@@ -236,6 +242,12 @@ class Ctx:
                                                goal=g.sexpr()[:300], path=list(self.trace)))
             self.solver.add(g)
             return True
+        if self.uncertain and r in (z3.sat, 'sat-cvc5'):
+            # the path condition itself could not be established: do not call this a failure
+            self.obligations.append(Obligation(name, 'unknown', detail + ' (path feasibility unknown)', goal=g.sexpr()[:2000],
+                                               solver=solver, secs=secs, kind=kind, path=list(self.trace)))
+            self.assume(g)
+            return False
         if r == z3.sat:
             m = self.solver.model()
             for hints in self.small_hints():
